@@ -437,6 +437,27 @@ func TestVerifH5(t *testing.T) {
 	if vt.Thorough() {
 		nh = 3000
 	}
+	// directed: the same ChannelBind failure twice in a row for one peer (first write, retry by the next write, retry
+	// by the bindings timer), then ordinary writes: data must keep going by Send indication until a bind succeeds
+	for _, f := range rxAlpha[2:] {
+		for _, second := range [][]string{f, {"ok"}} {
+			synctest.Test(t, func(t *testing.T) {
+				w := newH5World(vt)
+				vt.Op("cnew")
+				vt.Obs("ok")
+				p := peers[0]
+				w.write(p, []byte{1}, nil, f)
+				w.write(p, []byte{2}, nil, second)
+				w.write(p, []byte{3}, nil, nil)
+				vt.OpSync("cadv 31")
+				time.Sleep(31 * time.Second)
+				w.obs()
+				w.write(p, []byte{4}, nil, f)
+				w.write(p, []byte{5}, nil, nil)
+				w.finish()
+			})
+		}
+	}
 	for h := 0; h < nh; h++ {
 		synctest.Test(t, func(t *testing.T) {
 			w := newH5World(vt)
